@@ -58,3 +58,23 @@ Proof.
   destruct month_tables_ok as (H1 & H2 & H3).
   exact (conj translator_accepted (conj H1 (conj H2 (conj H3 (conj leap_factors_ok (proj1 modes_ok)))))).
 Qed.
+
+(* the integer attributes Calendar.set_mode derives (translated from its
+   right-hand sides on this run), evaluated on the model's month tables, are the
+   constants the model is written with *)
+Lemma set_mode_derived_ok : forall md,
+  let dim := DAYS_IN_MONTHS md in let diml := DAYS_IN_MONTHS_LEAP md in
+  sm_DAYS_IN_YEAR dim diml = DAYS_IN_YEAR md /\
+  sm_DAYS_IN_YEAR_LEAP dim diml = DAYS_IN_YEAR_LEAP md /\
+  sm_ROUGH_DAYS_IN_YEAR dim diml = DAYS_IN_YEAR md /\
+  sm_MAX_DAYS_IN_MONTH dim diml = MAX_DAYS_IN_MONTH md /\
+  sm_MAX_WEEKS_IN_YEAR dim diml = max_weeks_in_year md /\
+  sm_MONTHS_IN_YEAR dim diml = 12 /\
+  sm_SECONDS_IN_HOUR dim diml = 3600 /\
+  sm_SECONDS_IN_DAY dim diml = 86400.
+Proof. intros md. destruct md; vm_compute; repeat split; reflexivity. Qed.
+
+Lemma max_weeks_values :
+  max_weeks_in_year G = 53 /\ max_weeks_in_year D360 = 52 /\
+  max_weeks_in_year D365 = 53 /\ max_weeks_in_year D366 = 53.
+Proof. vm_compute. repeat split; reflexivity. Qed.
